@@ -41,6 +41,11 @@ def run(ctx):
     ctx.alias = {'R1': 'R7'}
     c20.r1_readers(ctx)
     ctx.alias = {}
+    # "cell text is taken literally": no token class strips or re-spells the text at construction, and the cells of a record reach
+    # the tokens as the line reader produced them
+    from . import shared
+    shared.check_token_ctors_verbatim(ctx, 'R8')
+    shared.check_cells_unmodified(ctx, 'R8')
 
 
 # --------------------------------------------------------------------------- R1
